@@ -90,17 +90,39 @@ def _job(job):
     r = random.Random('c15/%d/%d' % (seed, k))
     g = G.Gen(r, G.Profile(max_decls=7))
     m = g.module()
+    typedef_site = None
+    if k % 5 == 4:
+        # two templates with one unqualified name in two namespaces, each instantiated by a typedef of its own namespace:
+        # ignoring / deleting the first typedef'd class must leave the second one alone
+        dbl = ('ty', ('tn', [], 'double', []), False, '', True)
+        tv = ('ty', ('tn', [], 'T', []), False, '', False)
+        void = ('ty', ('tn', [], 'void', []), False, '', True)
+
+        def boxns(nsname, alias, second):
+            meth = ('method', None, 'put', ('r1', void), (('arg', tv, 't', None), ), False) if second else \
+                ('method', None, 'get', ('r1', tv), (), True)
+            return ('ns', nsname, [('class', ('tmpl', ['T'], [[]]), False, 'BoxQ', None, [('ctor', None, 'BoxQ', ()), meth]),
+                                   ('typedef', ('tt', [nsname], 'BoxQ', [dbl], False, ''), alias)])
+        m = list(m) + [boxns('nsqa', 'BoxQA', False), boxns('nsqb', 'BoxQB', True)]
+        typedef_site = ((len(m) - 2, 1), 'nsqa', 'BoxQA')
     sites = [(p, d) for p, d in class_sites(m) if not referenced(m, d[3])]
-    if not sites:
+    if not sites and not typedef_site:
         return None
-    path, cls = r.choice(sites)
     text = G.text(G.tokens(m))
-    text_removed = G.text(G.tokens(remove_at(m, path)))
     it = pc.impl_items(text)
     if it[0] != 'ok':
         return ('skip', it[0])
-    home = home_of_path(m, path)
-    names = cpp_names_of(it[1], home, cls[3])
+    if typedef_site:
+        path, nsname, alias = typedef_site
+        cls = ('class', None, False, alias, None, [])
+        text_removed = G.text(G.tokens(remove_at(m, path)))
+        home = [nsname]
+        names = ['%s::BoxQ<double>' % nsname]
+    else:
+        path, cls = r.choice(sites)
+        text_removed = G.text(G.tokens(remove_at(m, path)))
+        home = home_of_path(m, path)
+        names = cpp_names_of(it[1], home, cls[3])
     # another class with the same C++ name elsewhere in the module would also be ignored: skip
     allnames = [c for c, h, o in pc_named(it[1])]
     if any(allnames.count(n) > 1 for n in names):
